@@ -669,3 +669,5 @@ func init() {
 	regGen("C04", genC04)
 	regGen("C05", genC05)
 }
+
+func bverList() []bver.Version { return []bver.Version{bver.VersionB1, bver.VersionB2} }
